@@ -13,7 +13,9 @@ RULE = ('distinct protocol lines (a cmp pair, a list handed to sort, a key colum
 TRUSTED = ['correspondence harness (pv.engine, pv.proto) and generators of pv.props.c07',
            'Lean driver parser/printer (PygModel/Basic.lean, CmpDriver.lean)']
 ASSUMPTIONS = ['CPython: str(type(x)) names, native < on str/float/datetime/bool, sorted() is a stable sort determined by its comparison outcomes',
-               'numpy numbers / bools / datetime.date are normalised by as_primitive to the python values the wire format identifies them with; '
+               'numpy numbers of EVERY integer / float type (np.integer, np.floating: unsigned, narrow, longlong, float16/32, longdouble - wire NI.<type>: / NF.<type>:, '
+               'the implementation sees the real scalar; since fix 69a8316) / bools / datetime.date are normalised by as_primitive to the python values the wire format identifies them with '
+               '(a law, not only an assumption: numerically equal numbers of every spelling compare 0); '
                'pd.Timestamp and np.str_ are NOT normalised (as_primitive keeps them): they have their own wire spellings TS: / NS: so that the '
                'implementation sees the real objects; the model reads TS: as the datetime cell (cmp ranks a Timestamp with the datetimes since fix 7a44481); np.str_ has no model cell '
                '(cmp ranks it apart from str, pinned by the repository test_cmp) and takes part in the implementation-only laws',
@@ -41,6 +43,13 @@ def enc(v):
         return 'TS:%d' % proto.dt2us(v.to_pydatetime().replace(tzinfo=None))
     if isinstance(v, np.str_):
         return 'NS:' + proto.hexs(str(v))
+    if isinstance(v, np.integer) and type(v) is not np.int64:
+        # the other numpy integer types (unsigned, narrower, np.longlong - a type of its own beside np.int64): NI.<type name>:<int>
+        return 'NI.%s:%d' % (type(v).__name__, int(v))
+    if isinstance(v, np.floating) and type(v) is not np.float64:
+        # np.float16 / float32 / longdouble keep their type on the wire: NF.<type name>:<quarters | nan | inf | -inf>
+        f = float(v)
+        return 'NF.%s:%s' % (type(v).__name__, proto.enc_float(f).split(':', 1)[1])
     if isinstance(v, list):
         return '(L' + ''.join(' ' + enc(x) for x in v) + ')'
     if isinstance(v, tuple):
@@ -60,6 +69,12 @@ def dec(x):
             return pd.Timestamp(proto.us2dt(int(x[3:])))
         if x.startswith('NS:'):
             return np.str_(proto.unhex(x[3:]))
+        if x.startswith('NI.'):
+            head, body = x.split(':', 1)
+            return getattr(np, head[3:])(int(body))
+        if x.startswith('NF.'):
+            head, body = x.split(':', 1)
+            return getattr(np, head[3:])(body if body in ('nan', 'inf', '-inf') else int(body) / 4.0)
         return proto.dec_cell(x)
     head, rest = x[0], x[1:]
     if head == 'L':
@@ -74,6 +89,8 @@ def dec(x):
 def _plain(x):
     """parsed sexp with the C07-only spellings rewritten to the shared ones (for canonical comparison)"""
     if isinstance(x, str):
+        if x.startswith('NI.') or x.startswith('NF.'):
+            return x[1] + ':' + x.split(':', 1)[1]
         return 'T:' + x[3:] if x.startswith('TS:') else 'S:' + x[3:] if x.startswith('NS:') else 'NAT' if x == 'NAT64' else x
     return [_plain(y) for y in x]
 
@@ -93,12 +110,16 @@ def same_reply(r1, r2):
 # missing dates: pd.NaT IS an instance of datetime.datetime (it ranks with the datetimes since fix 7a44481) and every native comparison with
 # it is False, as with NaN; np.datetime64('NaT') is its numpy spelling (two objects of different identity, like the NaNs) - review t2 V1/V2
 NATS = [pd.NaT, np.datetime64('NaT'), np.datetime64('NaT')]
+# "numpy scalars" is wider than np.int64 / np.float64 (review v2 W1/W2): unsigned and narrow ints, np.longlong (a type of its own beside
+# np.int64 on this platform), the float widths incl. np.longdouble (not a python float: the native < and > with its NaN are both False)
+NP_WIDE = [np.uint8(1), np.uint8(2), np.uint64(2 ** 64 - 1), np.longlong(1), np.int8(-1), np.uint16(2), np.float16(1), np.float32(2.5),
+           np.longdouble(1.5), np.longdouble(2), np.longdouble('nan')]
 NP_STRS = [np.str_('a'), np.str_('b')]        # cmp ranks np.str_ by its own type name (the repository's test_cmp pins it): no model cell, laws only
 
 
 def universe(laws=False):
     nan = float('nan')
-    return (NP_STRS if laws else []) + NATS + [None, True, False, 0, 1, -1, 2, 1.0, 2.5, -0.25, float('nan'), float('nan'), np.nan, float('inf'), float('-inf'),
+    return (NP_STRS if laws else []) + NATS + NP_WIDE + [2 ** 64 - 1, None, True, False, 0, 1, -1, 2, 1.0, 2.5, -0.25, float('nan'), float('nan'), np.nan, float('inf'), float('-inf'),
             '', 'a', 'b', 'ab', 'B', D(2020, 1, 1), D(2020, 1, 2, 3), datetime.date(2020, 1, 1), np.int64(1), np.float64(1.0),
             np.float64('nan'), np.bool_(True), np.float64(2.5), 2 ** 53, 2 ** 53 + 1, float(2 ** 53),
             np.float64(2 ** 53), np.int64(2 ** 53 + 1), TS('2020-01-01'), TS('2020-01-02 03:00'),
@@ -112,8 +133,10 @@ SCALARS = [None, 0, 1, -1, 2, 3, 1.0, 2.5, -0.25, 0.5, 'a', 'b', 'ab', '', D(202
 # the other spellings of "ints, finite floats, strings, datetimes" (review s2, C07 2.A/2.B): numpy numbers around the float64
 # precision boundary (python compares int with float exactly, numpy through float64), pd.Timestamp (a datetime), np.str_ (a str)
 NP_SCALARS = [2 ** 53, 2 ** 53 + 1, float(2 ** 53), np.float64(2 ** 53), np.int64(2 ** 53 + 1), np.int64(2 ** 53), np.int64(1), np.float64(2.5),
-              np.float64(1.0), np.int64(2), TS('2020-01-02'), TS('2020-01-01'), TS('2019-05-05 12:00'), D(2020, 1, 3), 'c']
-BIG = [2 ** 53, 2 ** 53 + 1, 2 ** 53 + 2, float(2 ** 53), np.float64(2 ** 53), np.int64(2 ** 53 + 1), np.int64(2 ** 53), np.float64(2 ** 53 + 2)]
+              np.float64(1.0), np.int64(2), np.uint8(2), np.uint8(1), np.uint64(2 ** 53 + 1), np.longlong(3), np.int8(-1), np.float32(2.5), np.float16(0.5),
+              np.longdouble(1.5), np.longdouble('nan'), TS('2020-01-02'), TS('2020-01-01'), TS('2019-05-05 12:00'), D(2020, 1, 3), 'c']
+BIG = [2 ** 53, 2 ** 53 + 1, 2 ** 53 + 2, float(2 ** 53), np.float64(2 ** 53), np.int64(2 ** 53 + 1), np.int64(2 ** 53), np.float64(2 ** 53 + 2),
+       np.uint64(2 ** 53 + 1), np.uint64(2 ** 64 - 1), 2 ** 64 - 1, np.longlong(2 ** 53), np.float32(2 ** 53)]
 DATES = [TS('2020-01-02'), TS('2020-01-01'), TS('2019-05-05 12:00'), D(2020, 1, 3), D(2020, 1, 1), D(2020, 1, 2), D(2019, 5, 5, 12)]
 STRS = [np.str_('a'), np.str_('b'), np.str_('ab'), 'a', 'b', 'c', 'ab', '']
 DATES_NAT = DATES + NATS + [pd.NaT]            # laws only (the model has NaT at scalar level only)
@@ -330,7 +353,7 @@ def run_line(state, sx):
 
 def compare(case, i, line, ir, mr):
     if same_reply(ir, mr):
-        if ('TS:' in line or 'NS:' in line or 'NF:' in line or 'NI:' in line) and (line.startswith('(cmp sort ') or line.startswith('(cmp sortidx')):
+        if ('TS:' in line or 'NS:' in line or 'NF:' in line or 'NI:' in line or 'NI.' in line or 'NF.' in line) and (line.startswith('(cmp sort ') or line.startswith('(cmp sortidx')):
             # the reply carries positions / cells only: with spellings the model identifies (Timestamp = datetime, numpy = python
             # number) agreeing with the model does not yet mean "ordered under the implementation's cmp" - evaluate the statement
             bad = statement_fails(line, ir)
@@ -463,7 +486,7 @@ def laws(rng, tier, ctx):
         if float(x) == float(x) and abs(float(x)) != float('inf'):
             # NaN in every float spelling: np.float32 / np.float16 do not subclass python's float (seeded C07-u3: cmp skipping
             # as_primitive for two operands of one type left cmp(np.float32('nan'), np.float32(1.0)) == 0)
-            for nanv in (float('nan'), np.nan, np.float64('nan'), np.float32('nan'), np.float16('nan')):
+            for nanv in (float('nan'), np.nan, np.float64('nan'), np.float32('nan'), np.float16('nan'), np.longdouble('nan')):
                 count += 1
                 if pyg_base.cmp(x, nanv) != -1 or pyg_base.cmp(nanv, x) != 1:
                     yield Finding('violation', dict(tag='law-nantop', lines=['(cmp cmp %s F:nan)' % enc(x)]),
